@@ -100,14 +100,16 @@ CountCarets(x, i) == IF i <= Len(x) /\ x[i] = 94 THEN CountCarets(x, i + 1) ELSE
 (* The expression language of Find: the raw NameString bytes as the parser extracts them:             *)
 (*   ['\' | '^'*]  [0x2E seg seg | 0x2F count seg^count | seg+ | nothing (only after a prefix)]       *)
 (* class "wf": the rules below designate the result.  class "short": a well-formed start followed by  *)
-(* a 1..3 byte stub of a name (or the empty expression): designates nothing, the result is not-found. *)
+(* a 1..3 byte stub of a name (or the empty expression), or a dual/multi-name prefix byte (with or      *)
+(* without SegCount) followed by no name at all: designates nothing, the result is not-found.         *)
 (* class "garbage": anything else; Find merely has to return.                                         *)
 Parse(x) ==
   LET root   == Len(x) > 0 /\ x[1] = 92
       carets == IF root THEN 0 ELSE CountCarets(x, 1)
       off    == IF root THEN 1 ELSE carets
       rest   == SubSeq(x, off + 1, Len(x))
-      hdr    == IF Len(rest) >= 1 /\ rest[1] = 46 THEN 1 ELSE IF Len(rest) >= 2 /\ rest[1] = 47 THEN 2 ELSE 0
+      hdr    == IF Len(rest) >= 1 /\ rest[1] = 46 THEN 1
+                ELSE IF Len(rest) >= 1 /\ rest[1] = 47 THEN (IF Len(rest) >= 2 THEN 2 ELSE 1) ELSE 0
       form   == IF hdr = 1 THEN "dual" ELSE IF hdr = 2 THEN "multi" ELSE "plain"
       body   == SubSeq(rest, hdr + 1, Len(rest))
       nfull  == Len(body) \div 4
@@ -117,9 +119,9 @@ Parse(x) ==
       stubOK == stub > 0 /\ IsLead(body[4 * nfull + 1]) /\ \A j \in (4 * nfull + 2)..Len(body) : IsNameChar(body[j])
       countOK == CASE form = "plain" -> nfull >= 1 \/ (rest = <<>> /\ (root \/ carets > 0))
                    [] form = "dual"  -> nfull = 2
-                   [] form = "multi" -> nfull >= 1 /\ nfull = rest[2]
+                   [] form = "multi" -> nfull >= 1 /\ Len(rest) >= 2 /\ nfull = rest[2]
       class  == IF stub = 0 /\ segsOK /\ countOK THEN "wf"
-                ELSE IF x = <<>> \/ (segsOK /\ stubOK) THEN "short" ELSE "garbage"
+                ELSE IF x = <<>> \/ (segsOK /\ stubOK) \/ (hdr > 0 /\ body = <<>>) THEN "short" ELSE "garbage"
   IN [class |-> class, root |-> root, carets |-> carets, form |-> form, segs |-> segs]
 
 \* the child of scope sc named seg (0: none)
